@@ -3,7 +3,27 @@ package c07
 
 import (
 	enc "github.com/named-data/ndnd/std/encoding"
+	"verif/harness/common"
 )
+
+// twinTypes: generic, implicit-digest-like, keyword, segment, version component types
+var twinTypes = []enc.TLNum{8, 9, 32, 50, 54}
+
+// Twin returns a copy of n in which one component has another TLV type and the same value bytes
+// (names that differ only in a component type), occasionally also a zero byte in front of the value
+// (the same number in a wider encoding).
+func Twin(r *common.Rand, n enc.Name) enc.Name {
+	if len(n) == 0 {
+		return n
+	}
+	out := n.Clone()
+	i := r.Intn(len(out))
+	out[i] = enc.Component{Typ: common.Pick(r, twinTypes), Val: append([]byte{}, out[i].Val...)}
+	if r.Chance(1, 6) {
+		out[i].Val = append([]byte{0}, out[i].Val...)
+	}
+	return out
+}
 
 // ------------------------------------------------------------------ wire building (generator)
 
